@@ -1,7 +1,7 @@
 """C13 - a constraint error accounts for every input byte (byte accounting identity on every strict rejection)."""
 from hypothesis import strategies as st
 
-from .. import faults, gen, synthetic
+from .. import faults, gen, observe as O, synthetic
 from .common import layout, model_for_case
 from .strictdiff import accounting_problem, payload_of, strict_pair
 from ..compare import judge_strict
@@ -20,6 +20,9 @@ RULE = (
     "reference decoder dictates. Non-trivial = the error is raised at the last byte of the input or inside >= 2 regions; distinct = bytes."
 )
 ASSUMPTIONS = ["bytes_remaining may be any iterable of ints; it is materialised once, after the error was caught"]
+
+
+ELLIPSIS_ = "..."
 
 
 def judge(ctx, L, tname, data, cc, enc, extra=""):
@@ -65,6 +68,71 @@ def check_case(ctx, L, ex):
             return
 
 
+def deferred_reads(ctx, L, cases):
+    """Errors are kept (collected, logged later): the remaining bytes of each error are read only after *all* the failing
+    decodes of a batch have been made; every error must still account for its own input.  The last input of each batch
+    is followed by 70 000 further bytes (a fault at the start of a long capture)."""
+    from tpmstream.common import error as E
+    from tpmstream.io.binary import Binary
+    from tpmstream.spec.structures.constants import TPM_CC
+
+    batch = []
+    for k, (case, bad) in enumerate(cases):
+        data = bad + (bytes((7 * j + k) & 0xFF for j in range(70000)) if k % 4 == 3 else b"")
+        kw = dict(tpm_type=O.lib_type(case.type), buffer=data, abort_on_error=True)
+        if case.cc is not None:
+            kw["command_code"] = TPM_CC(case.cc)
+        if case.enc:
+            kw["parameter_encryption"] = True
+        events = []
+        err = None
+        try:
+            for ev in Binary.marshal(**kw):
+                events.append(ev)
+        except E.ConstraintViolatedError as exc:
+            err = exc
+        except Exception:  # noqa: BLE001 - other outcomes are other properties' business
+            continue
+        if err is None:
+            continue
+        batch.append((case, data, events, err))
+        if len(batch) < 4 and k != len(cases) - 1:
+            continue
+        for case_, data_, events_, err_ in batch:
+            rem = err_.bytes_remaining
+            try:
+                rem = None if rem is None else bytes(rem)
+            except Exception as exc2:  # noqa: BLE001
+                rem = None
+            emitted = b""
+            for ev in events_:
+                t = O.event_tuple(ev)
+                if t[0].startswith("!") or t[2] == ELLIPSIS_ or not L.is_prim(t[1]):
+                    continue
+                emitted += int(t[2]).to_bytes(L.width(t[1]), "big", signed=L.signed(t[1]))
+            ctx.case(("deferred", case_.type, data_[:4096]), True, sample={"deferred_read": True, "type": case_.type, "input_bytes": len(data_), "error": type(err_).__name__} if len(data_) > 60000 else None)
+            ctx.count("deferred-reads")
+            payload = payload_of(case_.type, data_[:2000], case_.cc, case_.enc, deferred=True)
+            # the remainder is a suffix of this input that starts behind the emitted fields
+            if rem is None or not data_.endswith(rem) or len(rem) > len(data_) - len(emitted):
+                ctx.problem(
+                    "C13:deferred-read",
+                    f"read after {len(batch) - 1} other failing decodes, {type(err_).__name__}.bytes_remaining is {None if rem is None else rem.hex()[:80]} ({None if rem is None else len(rem)} bytes): not the unconsumed suffix of its own input ({len(data_)} bytes, {len(emitted)} in emitted fields); {case_.type} {data_.hex()[:160]}",
+                    payload,
+                )
+                return
+            O.reset_state()
+            fresh = O.run_decode(case_.type, data_, command_code=case_.cc, enc=case_.enc, strict=True)
+            if fresh.outcome.get("remaining") is not None and rem != fresh.outcome["remaining"]:
+                ctx.problem(
+                    "C13:deferred-read",
+                    f"read after {len(batch) - 1} other failing decodes, {type(err_).__name__}.bytes_remaining holds {len(rem)} bytes ({rem.hex()[:60]}); read at once it holds {len(fresh.outcome['remaining'])} ({fresh.outcome['remaining'].hex()[:60]}); {case_.type} {data_.hex()[:160]}",
+                    payload,
+                )
+                return
+        batch = []
+
+
 def synthetic_part(ctx, max_len):
     LS = synthetic.extended_layout(layout())
     for t in synthetic.TOP_TYPES:
@@ -87,6 +155,22 @@ def run_shard(ctx):
     ):
         ctx.run_given(st.tuples(strat, tail), body, ctx.share(n), name=name)
 
+    # deferred reads of kept errors, and faults in front of 70 000 further bytes (judged outside hypothesis)
+    collected = []
+
+    def collect(case):
+        ref0 = model_for_case(L, case)
+        muts = [faults.patch(L, case, {i: nv}) for i, nv, label, _ in faults.size_perturbations(L, case, ref0)][:3]
+        for i in faults.constrained_sites(L, case)[:2]:
+            outs = L.outside_values(case.tokens[i][1])
+            if outs:
+                muts.append(faults.patch(L, case, {i: outs[0]}))
+        for m in muts:
+            collected.append((case, m))
+
+    ctx.run_given(gen.messages(L), collect, ctx.share(160 if q else 1600), name="for-deferred-reads")
+    ctx.run_plain(lambda: deferred_reads(ctx, L, collected), "deferred-reads")
+
     if not ctx.quick():
         from .common import fuzz_campaign
 
@@ -95,4 +179,6 @@ def run_shard(ctx):
 
 def replay(ctx, payload):
     L = synthetic.extended_layout(layout()) if "SYN" in payload["type"] else layout()
+    if payload.get("deferred"):
+        print("deferred-read findings depend on the batch of decodes before the read: re-run the check with the same VERIF_SEED")
     judge(ctx, L, payload["type"], payload["data"], payload.get("cc"), payload.get("enc"))
